@@ -9,14 +9,16 @@ for f in kf:
 findings = "\n".join(rows)
 first = json.load(open(os.path.join(V, 'seeded', 'FIRST_ATTEMPT.json')))
 res = json.load(open(os.path.join(V, 'seeded', 'RESULTS.json'))) if os.path.exists(os.path.join(V, 'seeded', 'RESULTS.json')) else {}
-rows = ["| Seeded change | Property | What it does (short) | First attempt | Now (quick check) | Rule(s) that fire |", "|---|---|---|---|---|---|"]
-for d in sorted(glob.glob(os.path.join(V, 'seeded', 'C*-m*'))):
+rows = ["| Seeded change | Property | What it does (short) | First attempt | Now (quick check of the property, or of the named one) | Rule(s) that fire |", "|---|---|---|---|---|---|"]
+for d in sorted(glob.glob(os.path.join(V, 'seeded', 'C*-*m*'))):
     i = os.path.basename(d)
     m = json.load(open(os.path.join(d, 'meta.json')))
     short = (m.get('needs_to_manifest') or '').strip().split('\n')[0][:140].replace('|', '/')
     r = res.get(i, {})
     rules = ", ".join(sorted(set(x.split(':')[-1] for x in r.get('rules', []))))[:160]
-    rows.append(f"| {i} | {m['breaks_property']} | {short} | {first.get(i, '?')} | {r.get('verdict', 'not run')} | {rules} |")
+    chk = m.get('detect_with', m['breaks_property'])
+    now = r.get('verdict', 'not run') + ('' if chk == m['breaks_property'] else f' (by {chk})')
+    rows.append(f"| {i} | {m['breaks_property']} | {short} | {first.get(i, '?')} | {now} | {rules} |")
 seeded = "\n".join(rows)
 p = os.path.join(V, 'DESIGN.md')
 s = open(p).read()
